@@ -101,6 +101,9 @@ class Ctx(object):
         """give a compound term a name (keeps the SMT text a flat list of definitions)"""
         if t.op in ('const', 'int', 'bool'):
             return t
+        for s_ in subterms(t):
+            if s_.op == 'const' and ('?' in s_.val or s_.val.startswith('$') or (s_.val.endswith('!') and len(s_.val) <= 4)):
+                return t        # mentions a bound variable: cannot be hoisted into a definition
         c = self.fresh(prefix, t.sort)
         self.asserts.append(eq(c, t))
         return c
@@ -218,6 +221,8 @@ class Exec(object):
 
     # ------------------------------------------------------------------ heap access
     def heap_get(self, st, name, sort):
+        if getattr(self, 'heap_record', None) is not None:
+            self.heap_record.add(name)
         h = st.heap.get(name)
         if h is None and name.startswith('INIT:'):
             h = constarr(arr(ARR_IB), constarr(ARR_IB, TRUE))
@@ -410,7 +415,7 @@ class Exec(object):
             return v
         if isinstance(v, PtrV):
             if v.term is None:
-                raise Unsupported('address of local cell used as value (%r)' % (v.addr,))
+                return self.ptr_term(None, v).term
             return v.term
         if isinstance(v, Opaque):
             return v.term
@@ -818,6 +823,65 @@ class Exec(object):
             return
         raise Unsupported('store %r' % (a,))
 
+    # ------------------------------------------------------------------ aggregates: leaf heaps
+    def leaf_heaps(self, tid, via=()):
+        """[(heap name, sort, two_level, via)] for every scalar leaf of an object of type tid; via = chain of
+        (struct tid, field) sub-object steps from the object's own address"""
+        k = self.kind(tid)
+        out = []
+        if self.is_string(tid):
+            for s in ('arr', 'off', 'len'):
+                out.append(('HF:string.' + s, ARR_II, False, via))
+        elif self.is_scalar(tid):
+            out.append(('HB:' + self.elem_key(tid), arr(self.sort_of(tid)), False, via))
+        elif k == 'slice':
+            for s in ('arr', 'off', 'len', 'cap'):
+                out.append(('HF:' + self.prog.short(tid) + '.' + s, ARR_II, False, via))
+        elif k == 'array':
+            e = self.U(tid)['elem']
+            if self.is_scalar(e):
+                out.append((self.hs_name(e), self.hs_sort(e), True, via))
+            else:
+                raise Unsupported('array of aggregates inside an aggregate element (%s)' % tid)
+        elif k == 'struct':
+            for f in self.struct_fields(tid):
+                ft = f['type']
+                fk = self.kind(ft)
+                if self.is_string(ft):
+                    for s in ('arr', 'off', 'len'):
+                        out.append(('HF:%s.%s.%s' % (self.tname(tid), f['name'], s), ARR_II, False, via))
+                elif self.is_scalar(ft):
+                    out.append(('HF:%s.%s' % (self.tname(tid), f['name']), arr(self.sort_of(ft)), False, via))
+                elif fk == 'slice':
+                    for s in ('arr', 'off', 'len', 'cap'):
+                        out.append(('HF:%s.%s.%s' % (self.tname(tid), f['name'], s), ARR_II, False, via))
+                elif fk in ('struct', 'array'):
+                    out += self.leaf_heaps(ft, via + ((tid, f['name']),))
+                else:
+                    raise Unsupported('leaf_heaps field kind %s' % fk)
+        else:
+            raise Unsupported('leaf_heaps kind %s' % k)
+        return out
+
+    def via_addr(self, via, p):
+        for stid, fname in via:
+            p = self.subaddr(stid, fname, p)
+        return p
+
+    def via_inverse(self, via, a):
+        """(candidate object address, condition that a really is via(p))"""
+        p = a
+        for stid, fname in reversed(via):
+            self.subaddr(stid, fname, ZERO)          # make sure the functions are declared
+            p = app('sub:%s.%s~' % (self.tname(stid), fname), (p,), INT)
+        return p, eq(self.via_addr(via, p), a)
+
+    def in_objs(self, r, p):
+        """p is one of the element objects elem(arr, k), lo <= k < hi, of region r = ('objs', tid, arr, lo, hi)"""
+        self.elemaddr(ZERO, ZERO)
+        ki = app('elem.i', (p,), INT)
+        return and_(eq(app('elem.a', (p,), INT), r[2]), le(r[3], ki), lt(ki, r[4]), eq(p, app('elem', (r[2], ki), INT)))
+
     # ------------------------------------------------------------------ frames
     def region_contains_elem(self, regions, ekey, a, i):
         """regions: list of ('slice', ekey, arr, lo, hi) | ('obj', tname, addr, field|None) | ('fresh', alloc0)"""
@@ -829,6 +893,11 @@ class Exec(object):
                 ds.append(ge(self.root_of(a), r[1]))
             elif r[0] == 'any':
                 return TRUE
+            elif r[0] == 'objs':
+                for hn, srt, two, via in self.leaf_heaps(r[1]):
+                    if two and hn == 'HS:' + ekey:
+                        p, ok = self.via_inverse(via, a)
+                        ds.append(and_(ok, self.in_objs(r, p)))
         return or_(*ds)
 
     def region_contains_obj(self, regions, tname, p, fname=None):
@@ -840,6 +909,13 @@ class Exec(object):
                 ds.append(ge(self.root_of(p), r[1]))
             elif r[0] == 'any':
                 return TRUE
+            elif r[0] == 'objs':
+                # p is an element object itself or one of its struct sub-objects
+                for hn, srt, two, via in [('', None, False, ())] + self.leaf_heaps(r[1]):
+                    if two:
+                        continue
+                    q, ok = self.via_inverse(via, p)
+                    ds.append(and_(ok, self.in_objs(r, q)))
         return or_(*ds)
 
     def root_of(self, a):
@@ -891,6 +967,10 @@ class Exec(object):
                         by_heap.setdefault(name, []).append(r)
                 if ('HB:' + r[1]) in st.heap:
                     by_heap.setdefault('HB:' + r[1], []).append(r)
+            elif r[0] == 'objs':
+                for hn, srt, two, via in self.leaf_heaps(r[1]):
+                    self.heap_get(st, hn, srt)
+                    by_heap.setdefault(hn, []).append(('objsleaf', r, two, via))
             elif r[0] == 'any':
                 anything = True
         if anything:
@@ -906,6 +986,19 @@ class Exec(object):
             new = c.fresh(tag + ':' + name, old.sort)
             st.heap[name] = new
             c.heap_bound[new.val] = st.alloc
+            if any(r[0] == 'objsleaf' for r in rs):
+                a = const('a!', INT)
+                member = []
+                for r in rs:
+                    if r[0] == 'objsleaf':
+                        q, ok = self.via_inverse(r[3], a)
+                        member.append(and_(ok, self.in_objs(r[1], q)))
+                    elif r[0] == 'slice':
+                        member.append(eq(a, r[2]))
+                    elif r[0] == 'obj':
+                        member.append(eq(a, r[2]))
+                c.assume(forall([a], implies(not_(or_(*member)), eq(select(new, a), select(old, a))), [select(new, a)]))
+                continue
             if name.startswith(('HS:', 'INIT:')):
                 a, k = const('a!', INT), const('k!', INT)
                 # arrays not touched by any region are equal as a whole (no extensionality reasoning needed later)
